@@ -7,7 +7,7 @@ import random
 from .. import buffer_drv as B
 
 PROP = 'C03'
-READY = False
+READY = True
 PROPS_MODULE = 'C03'
 MODEL_TARGETS = ['theories/Case_C03.vo']
 HEADER = B.HEADER + '\nRequire Import Aiuti.Case_C03.'
@@ -60,10 +60,39 @@ def gen_search(tier, seed):
     prof = dict(PROFILE, max=30, p_fail=0.5, advs='zhmmpptP', p_foreign=0.05)
     return [B.rand_case(rnd, prof) for _ in range(6000)] + B.word_cases(ALPHA, 5)[:20000]
 
-RULE = ''
-EXHAUSTIVE_NOTE = ''
-ASSUMPTIONS = []
-TRUSTED = []
-LEVEL_TEXT = ''
-LEVEL_NOTE = ''
-TECHNIQUE = ''
+RULE = ('cases = (timeout T, list of external events) run against the real aiuti.asyncio.BufferAsyncCalls under the virtual-time '
+        'loop: Submit of the five producer kinds (plain call, map of a list, map of an iterator incl. failing part-way, await_, amap; '
+        'awaitables / async iterables take their yields, failure — ordinary Exception or CancelledError raised by the producer, by id '
+        'parity — and end from the script), Advance dt, wait(cancel=True/False), submit+wait in one task step, FnOk / FnFail (the '
+        'harness-owned function parks until told, its set is copied at the start and re-read at the end), Shutdown, and the foreign-thread '
+        'halves of _put (FClear, FPut, FnOkThenFClear) performed by a real second thread going through the public API.  corpus: named '
+        'scenarios (retry after failure, prefix of failing producers, submission under a running call, foreign halves, duplicates) x 2 '
+        'timeouts; exhaustive layer: every word of <=4 (quick) / <=5 (thorough) letters over {plain, failing iterator, awaitable, async '
+        'iterable, yield, fail, end, Advance T-1 / T+1, FnOk, FnFail, wait(cancel=True)} and one foreign submission split at every pair '
+        'of quiescent points of every program of <=3 / <=4 letters; random layer: programs of 6..22 events, up to 8 submissions, about a '
+        'third of the first six calls failing, 3 in 100 events foreign.  Programs without Shutdown end with closers for every open producer + '
+        '[FnOk; Advance T+1; FnOk].  non-trivial = at least one successful call and at least two submissions (Case_C03.nontrivial, '
+        'decided inside Coq); distinct = distinct (case, trace) pairs among those')
+EXHAUSTIVE_NOTE = ('all event words up to length 4 (quick) / 5 (thorough) over the 12-letter C03 alphabet at T=8; all placements of the '
+                   'two halves of one foreign submission in all programs up to length 3 / 4')
+ASSUMPTIONS = ['single event loop, cooperative: between two quiescent points nothing external happens except the scripted event (macro-step model, DESIGN §4); the one same-iteration reaction that matters for the barrier — submit immediately followed by wait() in the same task step, from the loop thread or from a foreign thread — is a scripted event of its own', 'time is virtual: integer ticks of 2^-10 s, a timer fires when now >= deadline', 'the sync-iterator helper thread of map() (to_async_iter, property C16) is collapsed to "immediately available"', 'foreign threads are represented by the two shared-state operations of _put (event.clear, call_soon_threadsafe) as separate events FClear / FPut at quiescent points, plus FnOkThenFClear for a clear landing between event.set() and the loop test; OS-thread fairness is not modelled']
+TRUSTED = ['harness/buffer_drv.py + harness/vloop.py (virtual-time driver of the real BufferAsyncCalls; gated stand-ins for the public attributes `event` and `loop` park a real foreign thread before each of the two operations of _put) and coq/theories/Case_Buffer.v (agree, input tracker)', 'modelled, not verified: asyncio.Queue (put_nowait/get/get_nowait/task_done/join), asyncio.Event, wait_for, gather, Task.cancel/cancelling, call_soon_threadsafe FIFO, run_coroutine_threadsafe, async generators'] + ['coq/theories/Case_C03.v (monitor ok: only submitted arguments, failed set offered again, set not mutated under the call, '
+           'settled => everything delivered, own-thread distinct arguments => one successful call each)']
+LEVEL_TEXT = ('BufferAsyncCalls is modelled step for step as an executable macro-step machine (coq/theories/Buffer.v).  props/C03.v '
+              'proves for ALL event lists (any producers and failure positions, any function outcomes, waits, shutdown, foreign halves): '
+              'only_submitted (every element of every set passed to the function was handed over by an event of the history), '
+              'no_loss_inv (every argument handed over is delivered in a successful call, or held in the round input set = the running '
+              'call set, or pending in a producer the buffer holds — incl. the prefix of a failing producer), loaded_stays_held (kept and '
+              'offered again), handed_is_event_offers; exactly_once_own_thread / exactly_once_distinct (without a foreign clear inside the '
+              'set/test window no value is delivered more often than submitted; dup_foreign_example shows the legal foreign duplicate); '
+              'no_loss_progress + settles_idle (from any reachable live state with no slow producer in the way, FnOk; Advance>=timeout; '
+              'FnOk delivers everything handed over and leaves the buffer idle); foreign_at_least_once.  Tied to /repo by running the '
+              'real class under a virtual-time loop on the enumerated / random event lists and comparing every observation with the model '
+              'inside Coq (vm_compute); the monitor Case_C03.ok re-decides the property on the implementation trace.')
+LEVEL_NOTE = ('trusted: Coq kernel + vm_compute; no axioms (Print Assumptions: closed under the global context); asyncio primitives are '
+              'modelled and validated only by the correspondence runs; harness/buffer_drv.py, harness/vloop.py; Case_Buffer.v, Case_C03.v.  '
+              '"Eventually" is the progress theorem over event-list continuations (the environment must let the function succeed and '
+              'the producers end), not a fairness proof.')
+TECHNIQUE = ('Coq proof (one generic walk through the helpers of the macro step, instantiated with the conservation invariant, the '
+             'per-producer invariant and the counting invariant; induction over event lists) + differential correspondence under a '
+             'virtual-time event loop evaluated by vm_compute')
